@@ -16,18 +16,16 @@ import Abmarl.Props.C01
   current player can still act; **every step call forwards exactly one manager call** (no fake step,
   no rejection), so a play-through reaches LAST exactly when the underlying episode ends.
 * `c15_*` — readings of `specC15`.
-* `C15_openspiel_with_setter_partial` — the same over the richer call alphabet `OSIn` (resets, steps with
+* `C15_openspiel_with_setter` — the same over the richer call alphabet `OSIn` (resets, steps with
   **any** action list, and the public setter `current_player = a` for **any** `a`, learning agent or not,
-  anywhere in the history): the model's play-through satisfies `specC15Xw`, i.e. every clause of
-  `specC15X` — all learning agents present, **never an action forwarded for an agent already reported
-  done** (`osRunX_never_forwards_done`, `c15x_never_forwards_done`), LAST iff `__all__`, restart after
-  LAST, the setter accepts exactly the learning agents, an action for a done agent is answered by the
-  fake MID step that forwards nothing, and in turn-based play every time step that comes out of a
-  manager call names a current player who can still act — except that the current player named by the
-  **fake step's** time step is only pinned down (the first learning agent), not shown live.  That
-  remaining clause is false of the code as it is (finding C15-K1, `c15K1` below);
-  `C15_openspiel_with_setter` is the full `specC15X` for every history on which it is not hit
-  (`fakeHeadLive`).  `osRunX_of_plain`: without setter calls `osRunX` is `osRun`.
+  anywhere in the history): the model's play-through satisfies `specC15X` — all learning agents present,
+  **never an action forwarded for an agent already reported done** (`osRunX_never_forwards_done`,
+  `c15x_never_forwards_done`), LAST iff `__all__`, restart after LAST, the setter accepts exactly the
+  learning agents, an action for a done agent is answered by the fake MID step that forwards nothing,
+  and in turn-based play **every** time step, the fake step's included, names a current player who can
+  still act.  (The last clause was false of the fake step before repair C15-K1, found by this check;
+  `c15K1` is the regression history.)  `osRunX_of_plain`: without setter calls `osRunX` is `osRun`;
+  `specC15_of_specC15X`: `specC15X` contains `specC15`.
 -/
 namespace Abmarl
 variable {σ α ω ι : Type}
@@ -316,12 +314,11 @@ theorem osRunX_of_plain (S : SimIface σ α ω ι) (k : MKind) :
     | none => simp [OSIn.ofPlain, osRunX, osRun, ih]
     | some acts => simp [OSIn.ofPlain, osRunX, osRun, ih]
 
-/-- every clause of `specC15X` but the current player named by a fake step (`strict = false`), from any
-state satisfying the weak invariant, for every history of the richer alphabet -/
-theorem osRunX_sound_partial [DecidableEq α] [DecidableEq ω] {S : SimIface σ α ω ι} {k : MKind} (hW : WF S k)
+/-- `specC15X` from any state satisfying the weak invariant, for every history of the richer alphabet -/
+theorem osRunX_sound [DecidableEq α] [DecidableEq ω] {S : SimIface σ α ω ι} {k : MKind} (hW : WF S k)
     (hk : k ≠ .dynamic) (hl : S.learners ≠ []) :
     ∀ (calls : List (OSIn α)) (st : OSState σ) (gh : OSGhost), OSInvX S k st gh →
-      c15XLoop false k S.n S.learning gh calls (osRunX S k st calls) = true := by
+      c15XLoop k S.n S.learning gh calls (osRunX S k st calls) = true := by
   intro calls
   induction calls with
   | nil => intro st gh _; simp [osRunX, c15XLoop]
@@ -337,40 +334,27 @@ theorem osRunX_sound_partial [DecidableEq α] [DecidableEq ω] {S : SimIface σ 
       simp only [osRunX, c15XLoop, Bool.and_eq_true]
       exact ⟨h1, ih _ _ h2⟩
     | setCurrent a =>
-      obtain ⟨h1, h2⟩ := osSetCurrent_sound (α := α) (ω := ω) (ι := ι) false st gh hI a
+      obtain ⟨h1, h2⟩ := osSetCurrent_sound (α := α) (ω := ω) (ι := ι) st gh hI a
       simp only [osRunX, c15XLoop, Bool.and_eq_true]
       exact ⟨h1, ih _ _ h2⟩
 
 /-- **C15 (OpenSpiel, with the `current_player` setter)** for every simulation, both manager kinds and
-every history of resets, steps (any action list) and setter calls (any agent, anywhere).
-Full statement (false of the code as it is, finding C15-K1 — see `c15K1`):
-`specC15X k S.n S.learning calls (osRunX S k { m := m0 } calls) = true`.
-Missing: on the time step of a *fake step* (turn-based play, action for an agent already reported
-done) the named current player — the first learning agent — need not be able to act. -/
-theorem C15_openspiel_with_setter_partial [DecidableEq α] [DecidableEq ω] (S : SimIface σ α ω ι) (k : MKind)
-    (hW : WF S k) (hk : k ≠ .dynamic) (hl : S.learners ≠ []) (m0 : MState σ) (calls : List (OSIn α)) :
-    specC15Xw k S.n S.learning calls (osRunX S k { m := m0 } calls) = true :=
-  osRunX_sound_partial hW hk hl calls { m := m0 } {} ⟨rfl, rfl, fun h => by cases h⟩
-
-/-- the full property on every history that does not hit finding C15-K1: if at every fake step of the
-play-through the first learning agent has not been reported done, all of `specC15X` holds -/
+every history of resets, steps (any action list) and setter calls (any agent, anywhere). -/
 theorem C15_openspiel_with_setter [DecidableEq α] [DecidableEq ω] (S : SimIface σ α ω ι) (k : MKind)
-    (hW : WF S k) (hk : k ≠ .dynamic) (hl : S.learners ≠ []) (m0 : MState σ) (calls : List (OSIn α))
-    (hK1 : fakeHeadLive k S.n S.learning {} calls (osRunX S k { m := m0 } calls) = true) :
+    (hW : WF S k) (hk : k ≠ .dynamic) (hl : S.learners ≠ []) (m0 : MState σ) (calls : List (OSIn α)) :
     specC15X k S.n S.learning calls (osRunX S k { m := m0 } calls) = true :=
-  c15XLoop_strict_of_weak calls _ {} (C15_openspiel_with_setter_partial S k hW hk hl m0 calls) hK1
+  osRunX_sound hW hk hl calls { m := m0 } {} ⟨rfl, rfl, fun h => by cases h⟩
 
-/-- **never forwards an action for an already-done agent**, for every history of the richer alphabet
-(unconditionally: this clause is not affected by finding C15-K1): whichever manager call `e` of the
-whole play-through is a step, none of the actions it was handed is for an agent reported done since
-the latest manager reset before it -/
+/-- **never forwards an action for an already-done agent**, for every history of the richer alphabet:
+whichever manager call `e` of the whole play-through is a step, none of the actions it was handed is
+for an agent reported done since the latest manager reset before it -/
 theorem osRunX_never_forwards_done [DecidableEq α] [DecidableEq ω] (S : SimIface σ α ω ι) (k : MKind)
     (hW : WF S k) (hk : k ≠ .dynamic) (hl : S.learners ≠ []) (m0 : MState σ) (calls : List (OSIn α))
     (pre post : List (Entry α ω ι)) (e : Entry α ω ι) (sent : List (Aid × α))
     (hsplit : mgrCallsOf (osRunX S k { m := m0 } calls) = pre ++ e :: post) (hop : e.op = .step sent) :
     ∀ p ∈ sent, p.1 ∉ (foldG {} pre).R :=
   noFwdDone_split
-    (noFwdDone_of_loop calls _ {} (C15_openspiel_with_setter_partial S k hW hk hl m0 calls)) hsplit hop
+    (noFwdDone_of_loop calls _ {} (C15_openspiel_with_setter S k hW hk hl m0 calls)) hsplit hop
 
 /-! ### Readings of `specC15X` -/
 
@@ -390,7 +374,7 @@ theorem c15x_never_forwards_done [DecidableEq α] [DecidableEq ω] {k : MKind} {
 it through the setter) forwards nothing, is MID, and names a current player who can still act -/
 theorem c15x_fake_step [DecidableEq α] [DecidableEq ω] {n : Nat} {learning : Aid → Bool} {gh : OSGhost}
     {acts : List α} {c : OSCall α ω ι}
-    (h : c15XItem true .turnBased n learning gh (.step acts) (.ts c) = true) (hne : acts ≠ [])
+    (h : c15XItem .turnBased n learning gh (.step acts) (.ts c) = true) (hne : acts ≠ [])
     (hns : gh.shouldReset = false) (hd : gh.current ∈ gh.g.R) :
     ∃ ts, c.res = .ok ts ∧ c.mgrCalls = [] ∧ ts.stepType = .mid ∧
       ts.current < n ∧ learning ts.current = true ∧ ts.current ∉ gh.g.R := by
@@ -404,9 +388,9 @@ theorem c15x_fake_step [DecidableEq α] [DecidableEq ω] {n : Nat} {learning : A
   cases hr : c.res with
   | error e => simp [c15Fake, hr] at h2
   | ok ts =>
-    simp only [c15Fake, hr, if_true, Bool.and_eq_true, decide_eq_true_eq, isLearner,
+    simp only [c15Fake, hr, Bool.and_eq_true, decide_eq_true_eq, isLearner,
       List.isEmpty_iff] at h2
-    exact ⟨ts, rfl, h2.1.1.1.1.1, h2.1.2, h2.2.1.1, h2.2.1.2, h2.2.2⟩
+    exact ⟨ts, rfl, h2.1.1.1.1.1.1, h2.1.1.2, h2.1.2.1, h2.1.2.2, h2.2⟩
 
 /-- `specC15X` contains `specC15`: a play-through without setter calls that satisfies the richer
 specification satisfies the original one -/
@@ -417,9 +401,9 @@ theorem specC15_of_specC15X [DecidableEq α] [DecidableEq ω] {k : MKind} {n : N
   c15Loop_of_X calls tr {} (fun _ h => by cases h) h
 
 /-- the setter accepts exactly the learning agents and refuses everything else with its assertion -/
-theorem c15x_setter_accepts_learners [DecidableEq α] [DecidableEq ω] {strict : Bool} {k : MKind} {n : Nat}
+theorem c15x_setter_accepts_learners [DecidableEq α] [DecidableEq ω] {k : MKind} {n : Nat}
     {learning : Aid → Bool} {gh : OSGhost} {a : Aid} {r : Except Err Unit}
-    (h : c15XItem (α := α) (ω := ω) (ι := ι) strict k n learning gh (.setCurrent a) (.set r) = true) :
+    (h : c15XItem (α := α) (ω := ω) (ι := ι) k n learning gh (.setCurrent a) (.set r) = true) :
     (a < n ∧ learning a = true → r = .ok ()) ∧ (¬(a < n ∧ learning a = true) → r = .error .rejected) := by
   cases r with
   | ok u =>
@@ -431,17 +415,17 @@ theorem c15x_setter_accepts_learners [DecidableEq α] [DecidableEq ω] {strict :
     have := h.1
     simp [hl.1, hl.2] at this
 
-/-- the judge is sound on the scripted family (the predicate the driver evaluates on the model's outcome) -/
+/-- the judge is sound on the scripted family -/
 theorem C15X_stub (sc : Script) (k : MKind) (hk : k ≠ .dynamic) (m0 : MState StubSt)
     (hl : ∃ a < sc.n, sc.learning.getD a false = true) (calls : List (OSIn Int)) :
-    specC15Xw k sc.n (stubSim sc).learning calls (osRunX (stubSim sc) k { m := m0 } calls) = true := by
+    specC15X k sc.n (stubSim sc).learning calls (osRunX (stubSim sc) k { m := m0 } calls) = true := by
   have hW : WF (stubSim sc) k := stub_WF sc k (fun _ => hl) (fun h => absurd h hk)
   have hne : (stubSim sc).learners ≠ [] := by
     obtain ⟨a, ha, hla⟩ := hl
     intro he
     have : a ∈ (stubSim sc).learners := (mem_learners _ a).mpr ⟨ha, hla⟩
     rw [he] at this; cases this
-  exact C15_openspiel_with_setter_partial _ k hW hk hne m0 calls
+  exact C15_openspiel_with_setter _ k hW hk hne m0 calls
 
 /-- non-vacuity: turn-based play, `a1` finishes at its first move and is reported done; the caller then
 names it through the setter (`p 1`), also tries a non-learning agent and an unknown id (both refused):
@@ -458,27 +442,28 @@ example :
     (tr.any fun o => match o with
       | .ts c => (match c.res with | .ok ts => decide (ts.stepType = .last) | _ => false)
       | _ => false) = true ∧
-    fakeHeadLive .turnBased 4 (stubSim sc).learning {} calls tr = true ∧
     specC15X .turnBased 4 (stubSim sc).learning calls tr = true := by decide
 
-/-- **finding C15-K1** (the code as it is; the model follows it): `a0` finishes at its first move.  Once
-it has been reported done the caller names it through the setter; the fake step that answers the action
-names `next(iter(obs))`, the first learning agent — `a0` again, who is done — and so does every
-following call: no manager call is made any more and LAST is never reached although `a1`, `a2` could
-play on.  `specC15Xw` (what is proved) holds, `specC15X` (the property) does not. -/
+/-- **finding C15-K1, repaired** (regression history): `a0` finishes at its first move.  Once it has been
+reported done the caller names it through the setter.  Before the repair the fake step that answers
+the action named `next(iter(obs))`, the first learning agent — `a0` again, who is done — and so did every
+following call (no manager call any more, never LAST).  Now the fake step names `a1`, the first
+learning agent that can still act, the play-through goes on with one manager call per step and reaches
+LAST; `specC15X` holds. -/
 def c15K1 : Script × List (OSIn Int) :=
-  ({ n := 3, learning := [true, true, true], doneAt := [1, 9, 9], finishAt := 9, noms := [] },
-   [.step [1], .step [1], .step [1], .step [1], .setCurrent 0, .step [1], .step [1], .step [1], .step [1]])
+  ({ n := 3, learning := [true, true, true], doneAt := [1, 9, 9], finishAt := 7, noms := [] },
+   [.step [1], .step [1], .step [1], .step [1], .setCurrent 0, .step [1], .step [1], .step [1], .step [1],
+    .step [1]])
 
 example :
     let tr := osRunX (stubSim c15K1.1) .turnBased { m := mgrInit {} false [] } c15K1.2
-    (tr.map fun o => match o with | .ts c => c.mgrCalls.length | _ => 7) = [1, 1, 1, 1, 7, 0, 0, 0, 0] ∧
+    (tr.map fun o => match o with | .ts c => c.mgrCalls.length | _ => 7) = [1, 1, 1, 1, 7, 0, 1, 1, 1, 1] ∧
     (tr.map fun o => match o with
       | .ts c => (match c.res with | .ok ts => ts.current | _ => 9)
-      | _ => 7) = [0, 1, 2, 1, 7, 0, 0, 0, 0] ∧
-    specC15Xw .turnBased 3 (stubSim c15K1.1).learning c15K1.2 tr = true ∧
-    fakeHeadLive .turnBased 3 (stubSim c15K1.1).learning {} c15K1.2 tr = false ∧
-    specC15X .turnBased 3 (stubSim c15K1.1).learning c15K1.2 tr = false := by decide
-
+      | _ => 7) = [0, 1, 2, 1, 7, 1, 2, 1, 2, 1] ∧
+    (tr.any fun o => match o with
+      | .ts c => (match c.res with | .ok ts => decide (ts.stepType = .last) | _ => false)
+      | _ => false) = true ∧
+    specC15X .turnBased 3 (stubSim c15K1.1).learning c15K1.2 tr = true := by decide
 
 end Abmarl
